@@ -36,7 +36,7 @@ claimed = {
    text="Groups of two (uniform and PCT schedules) and three (PCT, bounded preemptions) concurrent install / install --replace / upgrade (with and without history limit) on one release, from an empty, deployed or uninstalled history, as separate processes on Secret/ConfigMap storage and sharing one memory driver; the scheduler interleaves them at every storage and cluster call. The oracle rebuilds the timeline of record writes and checks one creator per revision, losers failing with the documented errors without touching any release resource, no creation while another operation's revision is pending, and ledger well-formedness at quiescence. A second population runs the same groups in a -race build in co-release mode (answers computed serially, goroutines released together so that no happens-before edge hides Helm's own races).",
    note="Race reports are classified by the packages of the two accesses and the backend; which conflicting pair the detector reports first depends on real timing, so a race replay is accepted when the same class reappears within four attempts. Logic verdicts of the race tier are ignored (judged in the deterministic tier).",
    technique="deterministic simulation: seeded + PCT interleavings at storage/cluster-call granularity; race detector under co-release scheduling"),
- "C10": dict(level="exploration", design="§6 C10",
+ "C10": dict(level="exploration", design="§6 C10", engine="storesim",
    text="Seeded sequences of up to 30 driver calls (create/get/update/delete/list/query) over a small key space with generated releases (unicode, large manifests, nested values, hooks, timestamps with zones, user labels, names with dots, '.v', digits, maximum length) are executed on the memory, Secret and ConfigMap drivers - the latter two through the real client-go stack on the simulated API server - and compared call by call with a reference map and across backends; a fault population rejects, drops or loses the response of individual API calls and demands failure without corruption.",
    note="Equality is on the JSON projection of the release plus user labels (subchart objects hang off an unexported field and are not representable in a stored record). Query keys are the four the statement names.",
    technique="deterministic simulation: model-based comparison against a reference map on three backends, API-call fault injection"),
@@ -49,9 +49,21 @@ claimed = {
    note="Schema semantics are only exercised for a constructed family (type, required, enum, minimum/maximum, additionalProperties) where validity is known by construction; lint is not run.",
    technique="deterministic simulation: request-log and storage-log oracle in front of a constructed schema family"),
  "C20": dict(level="exploration", design="§6 C20 (storage slice)",
-   text="Stored release records are damaged between steps of a history (bit flip, truncation, zero fill, garbage, base64 of non-gzip, JSON null/array/object without info, missing data key) on the Secret and ConfigMap backends; history, list, get, status, get values, upgrade, rollback and uninstall then run against the damaged store. Every operation runs under a recover guard (panic = violation), the scheduler's step budget owns 'no hang', and History must keep returning every undamaged record.",
-   note="Only the fault-shaped part of C20 is claimed: corrupted stored records. Byte-level mutation of charts, values, --set strings, index files, plugin manifests is input fuzzing without any schedule, clock or fault and is out of this technique (DESIGN §7).",
+   text="Two slices. (a) Stored release records are damaged between steps of a history (bit flip, truncation, zero fill, garbage, base64 of non-gzip, JSON null/array/object without info, missing data key) on the Secret and ConfigMap backends; history, list, get, status, get values, upgrade, rollback and uninstall then run against the damaged store. Every operation runs under a recover guard (panic = violation), the scheduler's step budget owns 'no hang', and History must keep returning every undamaged record. (b) Index files, chart archives and provenance files are bit-flipped, truncated, emptied, wrapped in junk or stalled in transit on the simulated network; DownloadIndexFile, LoadIndexFile, IndexFile.Get, DownloadTo with verification and loader.Load must answer with a result or an error within the client time-out, never panic.",
+   note="Only the fault-shaped part of C20 is claimed: corrupted stored records and downloads damaged in transit. Byte-level mutation of charts, values, --set strings, index files, plugin manifests is input fuzzing without any schedule, clock or fault and is out of this technique (DESIGN §7).",
    technique="deterministic simulation: stored-record corruption as an injected disk fault between operations"),
+ "C05": dict(level="exploration", design="§4, §6 C05", engine="rendersim",
+   text="Generated charts (partials, include/tpl nesting, range over maps, toYaml/toJson of nested maps, .Files.Get/Glob/AsConfig, hooks, several subcharts with their own NOTES.txt, schemas with $ref in several URL forms) are rendered through Install(dry-run, client-only) repeatedly (fresh map iteration orders), with permuted template/file/dependency order, under changed environment variables and working directory, with a canary file outside the chart taking four different contents, and concurrently (engine.Render on one shared chart; dry-run installs on copies). Manifest, ordered hooks and notes must be byte-identical, no canary token may appear, env/expandenv must be unavailable, and a counting resolver must see no call with DNS disabled.",
+   note="No scheduler can decide Go's map iteration order: a map-order dependence is found as a difference between repeated renders and replay is probabilistic. Relative $ref forms resolve against / where the harness plants nothing, so only absolute file:// references are decisive.",
+   technique="deterministic simulation (environment/repetition/concurrency perturbation of renders; canary files, variables and resolver)"),
+ "C17": dict(level="exploration", design="§5, §6 C17", engine="netsim",
+   text="A chart is packaged and clear-signed in-run with generated keys, served by the simulated network and downloaded with verification required; in transit the archive or the .prov file is bit-flipped, byte-substituted, truncated, emptied or wrapped in junk, the archive is served under another file name, or another chart's .prov is served; keyrings hold the signer, the signer and another key, only another key, or nothing. Accepted implies untampered archive bytes, trusted signer, matching file name, own provenance and the right digest; an intact download signed by a trusted key must pass.",
+   note="Narrow claim: the channel-fault slice of the property. Mutations that leave the signed content intact (junk before the armor) may legitimately be accepted; single-bit enumeration of every position is sampled, not exhaustive.",
+   technique="deterministic simulation: corrupting channel between repository and verifier, keyring configurations"),
+ "C19": dict(level="exploration", design="§5, §6 C19", engine="netsim",
+   text="Repositories with unique credentials are placed on a simulated multi-origin network; index entries point at relative, same-origin (also upper-case, default-port-spelled, trailing-dot), other-port, other-scheme, sub-domain, sibling, unrelated, look-alike and userinfo-trick URLs, optionally answering 302 to yet another origin, with and without pass-credentials, with provenance fetches; the download runs through the HTTP getter, ChartDownloader by reference and by URL, ChartPathOptions.LocateChart (--repo) and Manager.Update with several repositories. Every request reaching any virtual host is logged with its decoded Authorization header and judged against the owning repository's origin.",
+   note="Redirect follow-ups by net/http to the same host or a sub-domain keep the header (standard library behaviour; the statement only forbids unrelated domains on redirect), including a same-host https->http downgrade. LocateChart is reached through the guarded getter hook.",
+   technique="deterministic simulation: simulated multi-origin network, per-origin credential observation"),
 }
 pending = {}
 na = {
@@ -68,13 +80,17 @@ checks = []
 for pid in sorted(claimed):
     c = claimed[pid]
     checks.append(dict(property_id=pid, quick_cmd="./check %s quick" % pid, thorough_cmd="./check %s thorough" % pid,
-        evidence_file="/verif/evidence/%s.json" % pid, replay_cmd_template="./check %s --replay {path}" % pid, engine="clustersim",
+        evidence_file="/verif/evidence/%s.json" % pid, replay_cmd_template="./check %s --replay {path}" % pid, engine=c.get("engine", "clustersim"),
         level_claimed=dict(category=c["level"], text=c["text"], design_ref=c["design"]), level_note=c["note"], technique=c["technique"]))
 m = dict(version=1,
   setup_cmd="./check build",
   hooks=dict(guard="verif", enable="go1.26.8 test -c -tags verif (GOTOOLCHAIN=local GOFLAGS=-mod=mod GOPROXY=off GOSUMDB=off) in /verif/sim, replace helm.sh/helm/v4 => /repo",
-             baseline_off_cmd=BASE_OFF, source_commits=[], add_only=True),
-  engines=[dict(name="clustersim", path="/verif/sim", serves_properties=sorted(claimed), kind_free_text="deterministic simulation (testing/synctest bubble, seeded scheduler, simulated Kubernetes API server, fault injection) driving the real pkg/action, pkg/kube, pkg/storage code")],
+             baseline_off_cmd=BASE_OFF, source_commits=["b77169a"], add_only=True),
+  engines=[
+    dict(name="clustersim", path="/verif/sim", serves_properties=sorted(k for k,v in claimed.items() if v.get("engine","clustersim")=="clustersim"), kind_free_text="deterministic simulation (testing/synctest bubble, seeded scheduler, simulated Kubernetes API server, fault injection) driving the real pkg/action, pkg/kube, pkg/storage code"),
+    dict(name="storesim", path="/verif/sim/oracle_c10.go", serves_properties=["C10"], kind_free_text="model-based comparison of the three storage drivers on the simulated API server"),
+    dict(name="rendersim", path="/verif/sim/oracle_c05.go", serves_properties=["C05"], kind_free_text="environment / repetition / concurrency perturbation of chart rendering"),
+    dict(name="netsim", path="/verif/sim/netsim.go", serves_properties=["C17","C19","C20"], kind_free_text="in-memory multi-origin network behind a real http.Transport, scripted servers, transit damage")],
   checks=checks,
   notes="Exit codes: 0 held (KNOWN-FINDING lines allowed), 1 VIOLATION printed, 2 infrastructure trouble (build, watchdog, replay mismatch). VERIF_SEED selects the PRNG seed, VERIF_BUDGET_S overrides the wall budget.",
   not_applicable=[dict(property_id=k, reason=v) for k,v in sorted({**na, **pending}.items())])
